@@ -52,6 +52,7 @@ type FuncContract struct {
 	Cover    bool
 	Pure     bool
 	NoAuto   bool
+	Models   map[string]bool // opt-in library models (e.g. "bytes.Buffer")
 	CallsArg int // 1+index of the function argument this function is trusted to call once (0 = none)
 	MayCallArg int // 1+index of a callback invoked at most once
 	Preserve []string // keys the function is declared not to write (checked against frame)
@@ -118,7 +119,7 @@ type UFun struct {
 
 var clauseRe = regexp.MustCompile(`^([A-Za-z0-9_.]+):\s*(.*)$`)
 
-var keywords = map[string]bool{"func": true, "props": true, "safety": true, "requires": true, "ensures": true, "loop": true, "site": true, "inline": true, "trusted": true, "pred": true, "callers": true, "writers": true, "dyncall": true, "chan": true, "cover": true, "pure": true, "ufun": true, "preserves": true, "noauto": true, "package": true, "layout": true, "callsarg": true, "specfn": true, "lemma": true, "apply": true, "assume": true, "raincallers": true, "ghostset": true, "maycallarg": true}
+var keywords = map[string]bool{"func": true, "props": true, "safety": true, "requires": true, "ensures": true, "loop": true, "site": true, "inline": true, "trusted": true, "pred": true, "callers": true, "writers": true, "dyncall": true, "chan": true, "cover": true, "pure": true, "ufun": true, "preserves": true, "noauto": true, "package": true, "layout": true, "callsarg": true, "specfn": true, "lemma": true, "apply": true, "assume": true, "raincallers": true, "ghostset": true, "maycallarg": true, "model": true}
 
 func loadContracts(root string) (*Contracts, error) {
 	cs := &Contracts{Funcs: map[string]*FuncContract{}, Preds: map[string]*Pred{}, UFuns: map[string]*UFun{}, Lemmas: map[string]*Lemma{}}
@@ -215,6 +216,14 @@ func (cs *Contracts) parseFile(path, pkg string) error {
 			cur.Safety = append(cur.Safety, fs[1:]...)
 		case "inline":
 			cur.Inline = true
+		case "model":
+			if cur == nil {
+				return fmt.Errorf("%s:%d: model outside func", path, d.line)
+			}
+			if cur.Models == nil {
+				cur.Models = map[string]bool{}
+			}
+			cur.Models[strings.Join(fs[1:], " ")] = true
 		case "noauto":
 			cur.NoAuto = true
 		case "callsarg":
